@@ -193,6 +193,7 @@ func workerStage(t *testing.T, prop, rule string, proto func(*rapid.T) string, a
 	defer drivers.stopAll()
 	envs := map[string]*wire.GenEnv{"ipfix": wire.NewGenEnv("ipfix"), "nf9": wire.NewGenEnv("nf9")}
 	envs["ipfix"].NoEnterprise = true
+	envs["ipfix"].Big, envs["nf9"].Big = true, true
 	gen := rapid.Custom(func(t *rapid.T) plCase {
 		c := genPipeline(t, proto(t), envs, 200)
 		if adjust != nil {
